@@ -462,8 +462,12 @@ func copyHeap(h map[string]string) map[string]string {
 }
 
 func (s *State) addEvent(e Event) {
-	for k := range s.held {
-		e.Held = append(e.Held, k)
+	for k, h := range s.held {
+		if h.Write {
+			e.Held = append(e.Held, k)
+		} else {
+			e.Held = append(e.Held, k+"#r")
+		}
 	}
 	e.Iter = s.iterEpoch
 	s.events = append(s.events, e)
